@@ -36,6 +36,8 @@ fn peel(e: &Expr) -> &Expr {
 }
 
 thread_local! {
+    /// locals of `into_usize` that hold the field of `self` (`let Self { key } = self;`)
+    static KEY_LOCALS: std::cell::RefCell<Vec<String>> = std::cell::RefCell::new(Vec::new());
     /// local `const` / `let` names of the function being translated -> their (already translated) value
     static ALIASES: std::cell::RefCell<std::collections::HashMap<String, String>> = std::cell::RefCell::new(std::collections::HashMap::new());
 }
@@ -79,6 +81,9 @@ fn kexpr(e: &Expr, param: &str) -> String {
         Expr::MethodCall(m) if m.method == "get" && m.args.is_empty() && toks(&m.receiver) == "self . key" && param == "self" => {
             ".var".into()
         }
+        // `key.get()` after `let Self { key } = self;`
+        Expr::MethodCall(m) if m.method == "get" && m.args.is_empty() && param == "self"
+            && KEY_LOCALS.with(|k| k.borrow().iter().any(|n| *n == toks(&m.receiver))) => ".var".into(),
         _ => format!("(.unknown {})", lean::s(&toks(e))),
     }
 }
@@ -140,6 +145,109 @@ fn some_self_key<'a>(e: &'a Expr, lets: &[(String, &'a Expr)]) -> Option<(String
     Some((ty_of(&segs[0]), &inner.args[0]))
 }
 
+/// What `try_from_usize` returns, as a decision tree over the comparisons it makes.
+enum Out<'a> {
+    NoneV,
+    /// `Some(Self { key: NonZeroX::new_unchecked(E) })`: (backing type, E translated)
+    SomeV(String, String),
+    /// condition (with the local bindings visible at that point), value if it holds, value otherwise
+    Ite(&'a Expr, std::collections::HashMap<String, String>, Box<Out<'a>>, Box<Out<'a>>),
+}
+
+fn bind_local<'a>(l: &'a syn::Local, param: &str, lets: &mut Vec<(String, &'a Expr)>) -> Option<()> {
+    let pat = match &l.pat {
+        syn::Pat::Type(pt) => &*pt.pat,
+        p => p,
+    };
+    let syn::Pat::Ident(pi) = pat else { return None };
+    let init = l.init.as_ref()?;
+    if init.diverge.is_some() {
+        return None;
+    }
+    let name = pi.ident.to_string();
+    // a rebinding hides the earlier one
+    lets.retain(|(k, _)| *k != name);
+    lets.push((name.clone(), &*init.expr));
+    let v = kexpr(&init.expr, param);
+    ALIASES.with(|m| {
+        let mut m = m.borrow_mut();
+        if v.contains(".unknown") {
+            m.remove(&name);
+        } else {
+            m.insert(name, v);
+        }
+    });
+    Some(())
+}
+
+/// Value returned once control enters this statement list (bindings made inside do not leak out).
+fn eval_stmts<'a>(stmts: &'a [Stmt], param: &str, lets: &mut Vec<(String, &'a Expr)>) -> Option<Out<'a>> {
+    let saved_aliases = ALIASES.with(|m| m.borrow().clone());
+    let saved: Vec<(String, &'a Expr)> = lets.clone();
+    let r = (|| {
+        for (idx, st) in stmts.iter().enumerate() {
+            let last = idx + 1 == stmts.len();
+            match st {
+                Stmt::Item(Item::Const(c)) => {
+                    let v = kexpr(&c.expr, param);
+                    ALIASES.with(|m| m.borrow_mut().insert(c.ident.to_string(), v));
+                }
+                Stmt::Local(l) => bind_local(l, param, lets)?,
+                // `if C { …; return X; }` followed by more statements: the block has type `()` or `!`, so
+                // whatever it yields is a returned value
+                Stmt::Expr(Expr::If(i), _) if !last && i.else_branch.is_none() => {
+                    let aliases = ALIASES.with(|m| m.borrow().clone());
+                    let then_o = eval_stmts(&i.then_branch.stmts, param, lets)?;
+                    let rest_o = eval_stmts(&stmts[idx + 1..], param, lets)?;
+                    return Some(Out::Ite(&i.cond, aliases, Box::new(then_o), Box::new(rest_o)));
+                }
+                Stmt::Expr(e, _) if last => return eval_out(e, param, lets),
+                _ => return None,
+            }
+        }
+        None
+    })();
+    *lets = saved;
+    ALIASES.with(|m| *m.borrow_mut() = saved_aliases);
+    r
+}
+
+fn eval_out<'a>(e: &'a Expr, param: &str, lets: &mut Vec<(String, &'a Expr)>) -> Option<Out<'a>> {
+    match e {
+        Expr::Paren(p) => eval_out(&p.expr, param, lets),
+        Expr::Group(g) => eval_out(&g.expr, param, lets),
+        Expr::Unsafe(u) => eval_stmts(&u.block.stmts, param, lets),
+        Expr::Block(b) if b.label.is_none() => eval_stmts(&b.block.stmts, param, lets),
+        Expr::Return(r) => eval_out(r.expr.as_deref()?, param, lets),
+        Expr::Path(_) if toks(e) == "None" => Some(Out::NoneV),
+        Expr::If(i) => {
+            let (_, els) = i.else_branch.as_ref()?;
+            let aliases = ALIASES.with(|m| m.borrow().clone());
+            let a = eval_stmts(&i.then_branch.stmts, param, lets)?;
+            let b = eval_out(els, param, lets)?;
+            Some(Out::Ite(&i.cond, aliases, Box::new(a), Box::new(b)))
+        }
+        // `match C { true => A, false => B }` (either arm may be `_`)
+        Expr::Match(m) if m.arms.len() == 2 && m.arms.iter().all(|a| a.guard.is_none()) => {
+            let pat = |a: &syn::Arm| -> String { toks(&a.pat) };
+            let (p0, p1) = (pat(&m.arms[0]), pat(&m.arms[1]));
+            let (t, f) = match (p0.as_str(), p1.as_str()) {
+                ("true", "false") | ("true", "_") => (0, 1),
+                ("false", "true") | ("false", "_") => (1, 0),
+                _ => return None,
+            };
+            let aliases = ALIASES.with(|m| m.borrow().clone());
+            let a = eval_out(&m.arms[t].body, param, lets)?;
+            let b = eval_out(&m.arms[f].body, param, lets)?;
+            Some(Out::Ite(&m.expr, aliases, Box::new(a), Box::new(b)))
+        }
+        _ => {
+            let (backing, store) = some_self_key(e, &lets[..])?;
+            Some(Out::SomeV(backing, kexpr(store, param)))
+        }
+    }
+}
+
 fn key_impl(imp: &syn::ItemImpl) -> KeyFacts {
     let name = toks(&imp.self_ty);
     let mut load = None;
@@ -150,6 +258,7 @@ fn key_impl(imp: &syn::ItemImpl) -> KeyFacts {
             if fname == "into_usize" {
                 // leading `let x = <expr>;` bindings are substituted
                 ALIASES.with(|m| m.borrow_mut().clear());
+                KEY_LOCALS.with(|m| m.borrow_mut().clear());
                 let mut ok = true;
                 let n = f.block.stmts.len();
                 for (idx, st) in f.block.stmts.iter().enumerate() {
@@ -163,6 +272,18 @@ fn key_impl(imp: &syn::ItemImpl) -> KeyFacts {
                                 p => p,
                             };
                             match (pat, &l.init) {
+                                // `let Self { key } = self;` / `let Self { key: k } = self;`
+                                (syn::Pat::Struct(ps), Some(init))
+                                    if toks(&ps.path) == "Self" && ps.fields.len() == 1 && ps.rest.is_none()
+                                        && toks(&ps.fields[0].member) == "key" && toks(peel(&init.expr)) == "self" =>
+                                {
+                                    match &*ps.fields[0].pat {
+                                        syn::Pat::Ident(pi) if pi.by_ref.is_none() && pi.subpat.is_none() => {
+                                            KEY_LOCALS.with(|m| m.borrow_mut().push(pi.ident.to_string()));
+                                        }
+                                        _ => ok = false,
+                                    }
+                                }
                                 (syn::Pat::Ident(pi), Some(init)) => {
                                     let v = kexpr(&init.expr, "self");
                                     ALIASES.with(|m| m.borrow_mut().insert(pi.ident.to_string(), v));
@@ -178,6 +299,7 @@ fn key_impl(imp: &syn::ItemImpl) -> KeyFacts {
                     _ => format!("(.unknown {})", lean::s(&toks(&f.block))),
                 });
                 ALIASES.with(|m| m.borrow_mut().clear());
+                KEY_LOCALS.with(|m| m.borrow_mut().clear());
             } else if fname == "try_from_usize" {
                 let param = f
                     .sig
@@ -190,42 +312,10 @@ fn key_impl(imp: &syn::ItemImpl) -> KeyFacts {
                     .unwrap_or_default();
                 tri = Some((|| {
                     ALIASES.with(|m| m.borrow_mut().clear());
-                    // leading `const` / `let` bindings and at most one guard `if C { return None; }`
-                    let stmts = &f.block.stmts;
+                    // the body is read as a decision tree (see `Out`): any mix of `if`/`else`, `match` on a
+                    // comparison with `true`/`false` arms, early `return`, and local bindings in any block
                     let mut lets: Vec<(String, &Expr)> = Vec::new();
-                    let mut guard: Option<&Expr> = None;
-                    let mut tail: Option<&Expr> = None;
-                    for (idx, st) in stmts.iter().enumerate() {
-                        match st {
-                            Stmt::Item(Item::Const(c)) => {
-                                let v = kexpr(&c.expr, &param);
-                                ALIASES.with(|m| m.borrow_mut().insert(c.ident.to_string(), v));
-                            }
-                            Stmt::Local(l) => {
-                                let syn::Pat::Ident(pi) = &l.pat else { return None };
-                                let init = l.init.as_ref()?;
-                                lets.push((pi.ident.to_string(), &*init.expr));
-                                let v = kexpr(&init.expr, &param);
-                                if !v.contains(".unknown") {
-                                    ALIASES.with(|m| m.borrow_mut().insert(pi.ident.to_string(), v));
-                                }
-                            }
-                            Stmt::Expr(Expr::If(i), _) if idx + 1 != stmts.len() => {
-                                // guard: `if C { return None; }` without else
-                                if guard.is_some() || i.else_branch.is_some() {
-                                    return None;
-                                }
-                                let body: String = toks(&i.then_branch).chars().filter(|c| !c.is_whitespace()).collect();
-                                if body != "{returnNone;}" && body != "{returnNone}" {
-                                    return None;
-                                }
-                                guard = Some(&i.cond);
-                            }
-                            Stmt::Expr(e, None) if idx + 1 == stmts.len() => tail = Some(peel(e)),
-                            _ => return None,
-                        }
-                    }
-                    let tail = tail?;
+                    let out = eval_stmts(&f.block.stmts, &param, &mut lets)?;
                     // (success condition as (cmp, lhs, rhs), the `Some(..)` expression)
                     let norm = |c: &Expr, negate: bool| -> Option<(&'static str, String, String)> {
                         let Expr::Binary(b) = peel(c) else { return None };
@@ -244,26 +334,15 @@ fn key_impl(imp: &syn::ItemImpl) -> KeyFacts {
                             _ => return None,
                         })
                     };
-                    let is_none = |e: &Expr| toks(peel(e)) == "None";
-                    let (cond, some_e): ((&'static str, String, String), &Expr) = match (guard, tail) {
-                        (Some(g), t) => (norm(g, true)?, t),
-                        (None, Expr::If(i)) => {
-                            let (_, els) = i.else_branch.as_ref()?;
-                            let Expr::Block(eb) = &**els else { return None };
-                            let then_e = tail_expr(&i.then_branch)?;
-                            let else_e = tail_expr(&eb.block)?;
-                            if is_none(else_e) {
-                                (norm(&i.cond, false)?, then_e)
-                            } else if is_none(then_e) {
-                                (norm(&i.cond, true)?, else_e)
-                            } else {
-                                return None;
-                            }
-                        }
+                    // exactly one comparison decides between the one `Some(..)` and `None`
+                    let Out::Ite(c, aliases, a, b) = out else { return None };
+                    ALIASES.with(|m| *m.borrow_mut() = aliases);
+                    let (cond, (backing, store)) = match (*a, *b) {
+                        (Out::SomeV(bk, st), Out::NoneV) => (norm(c, false)?, (bk, st)),
+                        (Out::NoneV, Out::SomeV(bk, st)) => (norm(c, true)?, (bk, st)),
                         _ => return None,
                     };
-                    let (backing, store) = some_self_key(some_e, &lets)?;
-                    Some((backing, cond.0.to_string(), cond.1, cond.2, kexpr(store, &param)))
+                    Some((backing, cond.0.to_string(), cond.1, cond.2, store))
                 })());
             }
         }
@@ -332,7 +411,11 @@ pub fn emit(src: &Path, out: &mut String) {
                                 // `let k = <call>; k.unwrap()` / `k.expect(..)`
                                 for st in &f.block.stmts {
                                     if let Stmt::Local(l) = st {
-                                        if let (syn::Pat::Ident(pi), Some(init)) = (&l.pat, &l.init) {
+                                        let pat = match &l.pat {
+                                            syn::Pat::Type(pt) => &*pt.pat,
+                                            p => p,
+                                        };
+                                        if let (syn::Pat::Ident(pi), Some(init)) = (pat, &l.init) {
                                             let name = pi.ident.to_string();
                                             if t == format!("{name}.unwrap()") || t.starts_with(&format!("{name}.expect(")) {
                                                 t = format!("{}.unwrap()", sq(&toks(&*init.expr)));
